@@ -783,8 +783,11 @@ func (d *Driver) TokString(tok M) string {
 		}
 		return flipB64(raw, -1) // last plaintext byte: yields "id:sub'" with another subject
 	case "trunc":
+		// cut in the middle: what is left of an opaque token no longer holds the token id, what is left of a JWT has no signature.
+		// (Cutting only the last characters of an opaque token leaves "id:" with an empty subject, which a storage may still
+		// recognise by id - that string does identify the token, so it is not what the spec calls a truncated token.)
 		if len(raw) > 4 {
-			return raw[:len(raw)-3]
+			return raw[:len(raw)/2]
 		}
 	case "rekeyed":
 		s, _ := crypto.EncryptAES(storeID+":"+sub, string(OtherCryptoKey[:]))
